@@ -11,6 +11,7 @@ python3 translators/extract_codec_tags.py
 python3 translators/extract_serde_attrs.py
 python3 translators/extract_impl_tables.py
 python3 translators/extract_typestate.py
+python3 translators/extract_ident_rule.py
 # the schema translator needs the schema harness built first
 cp /repo/Cargo.lock harness/schema/Cargo.lock 2>/dev/null || true
 (cd harness/schema && CARGO_TARGET_DIR="$V/.build/sch" cargo build --offline --quiet && CARGO_TARGET_DIR="$V/.build/sch-bv" cargo build --offline --quiet --features bitvec)
